@@ -96,11 +96,11 @@ impl Property for C06 {
         let encs = encoders_for_all_kinds(sem);
         let mut orng = Rng::sub(run_seed, "oracle");
         let mut prng = Rng::sub(run_seed, "delivery");
-        let draw_backend = |rng: &mut Rng, prng: &mut Rng| match rng.weighted(&[50, 30, 19, 1]) {
+        let draw_backend = |rng: &mut Rng, prng: &mut Rng| match rng.weighted(&[500, 300, 197, 3]) {
             0 => Backend::Sim,
             1 => Backend::Ext { plan: ReplyPlan::draw(prng), vary_plan: rng.bool() },
             2 => Backend::Cadical,
-            // 1 %: the real external-process path (ExternalSatSolver + exec_solver + fakesat on OS pipes)
+            // 0.3 %: the real external-process path (ExternalSatSolver + exec_solver + fakesat on OS pipes)
             _ => Backend::Process { seed: prng.next_u64() >> 40, comment_bytes: *prng.pick(&[0usize, 300, 70_000]) },
         };
         let fix = |b: Backend, mut o: OracleCfg| {
